@@ -3,10 +3,12 @@
 
    `run h` is the state of the environment's ownership automaton after handling the events h
    (one `Environment::handle_event` each; `ETerminate p` marks the moment p really terminates on its
-   worker); `new_calls s e` are the EffectBackend calls made while handling e in state s.
+   worker; `EWatchReport p` is Event::ProcessTerminated, `EResults` Event::ProcessResults);
+   `new_calls s e` are the EffectBackend calls made while handling e in state s.
    Every theorem quantifies over EVERY event sequence (every interleaving of every program).
-   The classes KnownF10 / KnownF47 / KnownF49 are the confirmed defects of the code as it
-   is (known_findings.json); each excluded statement comes with its `_refuted` witness, which is the
+   Since the repairs of F10 (every owner is watched), F48 (a stale handle is not registered again) and
+   F49 (only the owner can give a resource away) the only excluded class is KnownF47 (an effect on an
+   id absent from the map reaches the backend: known_findings.json), with its `_refuted` witness, the
    trace of a real run. *)
 From Coq Require Import List NArith Bool.
 From Quiver Require Import res.Own res.OwnProofs.
@@ -20,23 +22,23 @@ Theorem C14_owner_map_is_function : forall h r p q,
 Proof. exact owner_map_is_function. Qed.
 Print Assumptions C14_owner_map_is_function.
 
-(* after a send carrying r — at any depth below tuples and closures — the owner of an open
-   (registered) resource is the recipient; an id that is not registered stays unregistered; nothing
-   else changes *)
+(* a send moves exactly the resources it carries — at any depth below tuples and closures — that the
+   SENDER owns, to the recipient; a handle of somebody else's resource, or of an id that is not
+   registered, moves nothing *)
 Theorem C14_single_owner_after_send : forall h sender target v r,
-  (carries r v -> lookup r (owner (run h)) <> None ->
+  (carries r v -> lookup r (owner (run h)) = Some sender ->
      lookup r (owner (run (h ++ [ESend sender target v]))) = Some target) /\
-  (carries r v -> lookup r (owner (run h)) = None ->
-     lookup r (owner (run (h ++ [ESend sender target v]))) = None) /\
+  (lookup r (owner (run h)) <> Some sender ->
+     lookup r (owner (run (h ++ [ESend sender target v]))) = lookup r (owner (run h))) /\
   (~ carries r v -> lookup r (owner (run (h ++ [ESend sender target v]))) = lookup r (owner (run h))).
 Proof. exact owner_after_send. Qed.
 Print Assumptions C14_single_owner_after_send.
 
 Theorem C14_single_owner_after_spawn : forall h caller vals r,
-  ((exists v, In v vals /\ carries r v) -> lookup r (owner (run h)) <> None ->
+  ((exists v, In v vals /\ carries r v) -> lookup r (owner (run h)) = Some caller ->
      lookup r (owner (run (h ++ [ESpawn caller vals]))) = Some (next_pid (run h))) /\
-  ((exists v, In v vals /\ carries r v) -> lookup r (owner (run h)) = None ->
-     lookup r (owner (run (h ++ [ESpawn caller vals]))) = None) /\
+  (lookup r (owner (run h)) <> Some caller ->
+     lookup r (owner (run (h ++ [ESpawn caller vals]))) = lookup r (owner (run h))) /\
   ((forall v, In v vals -> ~ carries r v) ->
      lookup r (owner (run (h ++ [ESpawn caller vals]))) = lookup r (owner (run h))).
 Proof. exact owner_after_spawn. Qed.
@@ -48,21 +50,30 @@ Theorem C14_creator_is_first_owner : forall h p n r,
 Proof. exact creator_is_first_owner. Qed.
 Print Assumptions C14_creator_is_first_owner.
 
-(* the owner of r changes only by a transfer carrying r, by the backend creating r, or — to no
-   owner — by the cleanup of a reported owner *)
+(* the owner of r changes only by a transfer carrying r made by its owner, by the backend creating
+   r, or — to no owner — by the cleanup of a reported owner *)
 Theorem C14_ownership_changes_only_by_transfer_creation_cleanup : forall h e r,
   lookup r (owner (run (h ++ [e]))) <> lookup r (owner (run h)) ->
   match lookup r (owner (run (h ++ [e]))) with
   | Some p => match e with
-              | ESend _ t v => t = p /\ carries r v
-              | ESpawn _ vals => next_pid (run h) = p /\ exists v, In v vals /\ carries r v
+              | ESend q t v => t = p /\ carries r v /\ lookup r (owner (run h)) = Some q
+              | ESpawn q vals => next_pid (run h) = p /\ (exists v, In v vals /\ carries r v) /\
+                                 lookup r (owner (run h)) = Some q
               | EEffect q _ _ | EComplete q _ => q = p /\ In r (issued_by e)
               | _ => False
               end
-  | None => exists done o, e = EResults done /\ lookup r (owner (run h)) = Some o /\ In o done
+  | None => exists o, lookup r (owner (run h)) = Some o /\ In o (reported e)
   end.
 Proof. exact ownership_changes_only_by. Qed.
 Print Assumptions C14_ownership_changes_only_by_transfer_creation_cleanup.
+
+(* F49 repaired: a resource leaves its owner only by the owner's own send/spawn, by the owner's
+   cleanup, or by the backend issuing the same id again *)
+Theorem C14_transfer_only_by_owner : forall h e r o,
+  lookup r (owner (run h)) = Some o -> lookup r (owner (run (h ++ [e]))) <> Some o ->
+  initiates e o r \/ In o (reported e) \/ In r (issued_by e).
+Proof. exact transfer_only_by_owner. Qed.
+Print Assumptions C14_transfer_only_by_owner.
 
 (* ---- only the owner reaches the backend ---- *)
 
@@ -99,7 +110,7 @@ Print Assumptions C14_non_owner_never_reaches_backend_unconditional_refuted.
 
 Theorem C14_close_only_in_cleanup_of_owner : forall h e r,
   In (CClose r) (new_calls (run h) e) ->
-  exists done p, e = EResults done /\ In p done /\ lookup r (owner (run h)) = Some p.
+  exists p, In p (reported e) /\ lookup r (owner (run h)) = Some p.
 Proof. exact close_only_in_cleanup_of_owner. Qed.
 Print Assumptions C14_close_only_in_cleanup_of_owner.
 
@@ -109,52 +120,35 @@ Theorem C14_not_closed_while_owner_alive : forall h e r,
 Proof. exact not_closed_while_owner_alive. Qed.
 Print Assumptions C14_not_closed_while_owner_alive.
 
-(* unconditional since the repair of F48 (a stale handle is not registered again); the only
-   hypothesis is the backend's: it never hands out the same id twice *)
+(* the only hypothesis is the backend's: it never hands out the same id twice *)
 Theorem C14_closed_at_most_once : forall h,
   backend_fresh h -> NoDup (closes (log (run h))).
 Proof. exact closed_at_most_once. Qed.
 Print Assumptions C14_closed_at_most_once.
 
-(* when the environment learns that p terminated, everything p owns is closed, and p owns nothing *)
-Theorem C14_cleanup_closes_everything : forall h done p r,
-  In p done -> lookup r (owner (run h)) = Some p ->
-  In (CClose r) (new_calls (run h) (EResults done)) /\
-  forall r', lookup r' (owner (run (h ++ [EResults done]))) <> Some p.
+(* when the environment learns that p terminated (ProcessResults or ProcessTerminated), everything p
+   owns is closed, and p owns nothing *)
+Theorem C14_cleanup_closes_everything : forall h e p r,
+  In p (reported e) -> lookup r (owner (run h)) = Some p ->
+  In (CClose r) (new_calls (run h) e) /\
+  forall r', lookup r' (owner (run (h ++ [e]))) <> Some p.
 Proof. exact cleanup_closes_everything. Qed.
 Print Assumptions C14_cleanup_closes_everything.
 
-(* safety form of "every resource owned at termination is eventually closed": in ANY reachable
-   state a terminated process owns nothing, outside F10 (never reported, or given the handle after
-   a report) *)
+(* F10 repaired: whoever owns a resource has a WatchProcess outstanding, so its worker will report
+   its termination *)
+Theorem C14_owners_are_watched : forall h r p,
+  lookup r (owner (run h)) = Some p -> In p (watched (run h)).
+Proof. exact owners_are_watched. Qed.
+Print Assumptions C14_owners_are_watched.
+
+(* safety form of "every resource owned at termination is eventually closed": in a quiescent state
+   (no completion outstanding; no watched process that has terminated and is not yet reported) a
+   terminated process owns nothing — unconditionally, awaited or not *)
 Theorem C14_closed_after_termination : forall h p r,
-  ~ KnownF10 h p r -> In p (dead (run h)) -> lookup r (owner (run h)) <> Some p.
+  quiescent (run h) -> In p (dead (run h)) -> lookup r (owner (run h)) <> Some p.
 Proof. exact closed_after_termination. Qed.
 Print Assumptions C14_closed_after_termination.
-
-Theorem C14_closed_after_termination_unconditional_refuted :
-  exists h p r, reports_only_terminated h /\ backend_fresh h /\ quiescent (run h) /\
-                In p (dead (run h)) /\ lookup r (owner (run h)) = Some p /\ KnownF10 h p r.
-Proof. exact closed_after_termination_refuted. Qed.
-Print Assumptions C14_closed_after_termination_unconditional_refuted.
-
-(* ---- who may transfer (F49) ---- *)
-
-Theorem C14_transfer_only_by_owner_refuted :
-  exists h e q r o, initiates e q r /\ lookup r (owner (run h)) = Some o /\ o <> q /\
-                    ~ In o (dead (run h)) /\ lookup r (owner (run (h ++ [e]))) <> Some o /\
-                    KnownF49 (h ++ [e]).
-Proof. exact transfer_only_by_owner_refuted. Qed.
-Print Assumptions C14_transfer_only_by_owner_refuted.
-
-(* outside F49 a resource leaves its owner only by the owner's own send/spawn, by the owner's
-   cleanup, or by the backend issuing the same id again *)
-Theorem C14_ownership_leaves_only_by_owner_action : forall h e r o,
-  ~ KnownF49 (h ++ [e]) ->
-  lookup r (owner (run h)) = Some o -> lookup r (owner (run (h ++ [e]))) <> Some o ->
-  initiates e o r \/ (exists done, e = EResults done /\ In o done) \/ In r (issued_by e).
-Proof. exact ownership_leaves_only_by_owner_action. Qed.
-Print Assumptions C14_ownership_leaves_only_by_owner_action.
 
 (* ---- the model's log is append-only (gives `new_calls` its meaning) ---- *)
 
@@ -166,9 +160,16 @@ Print Assumptions C14_log_extends.
 
 Theorem C14_nonvacuity :
   reports_only_terminated good_history /\ backend_fresh good_history /\
-  ~ KnownF47 good_history /\ ~ KnownF49 good_history /\
-  ~ KnownF10 good_history 2 1 /\ In 2 (dead (run good_history)) /\
+  ~ KnownF47 good_history /\ quiescent (run good_history) /\ In 2 (dead (run good_history)) /\
   closes (log (run good_history)) = [1] /\
   log (run good_history) = [CExec 0 (Open 1); CExec 1 (Op 1 0); CExec 2 (Op 1 0); CClose 1].
 Proof. exact good_history_meets_all_hypotheses. Qed.
 Print Assumptions C14_nonvacuity.
+
+(* the repaired defects as must-hold instances (traces of real runs of their reproducers) *)
+Theorem C14_unawaited_owner_is_cleaned_up :
+  reports_only_terminated probe_F10 /\ backend_fresh probe_F10 /\ quiescent (run probe_F10) /\
+  In 1 (dead (run probe_F10)) /\ owner (run probe_F10) = [] /\ closes (log (run probe_F10)) = [1] /\
+  ~ quiescent (run (firstn 5 probe_F10)).
+Proof. exact unawaited_owner_is_cleaned_up. Qed.
+Print Assumptions C14_unawaited_owner_is_cleaned_up.
